@@ -1,21 +1,134 @@
 """Gen/C18Consts.lean — set-up order of pyatv.connect and the interfaces taken over by the
-two streaming calls, read from the imported real modules (PROTOCOLS dict order) and from
-the AST of RaopStream.stream_file / AirPlayStream.play_url (`self.core.takeover(...)`)."""
+two streaming calls, read from the imported real modules.
+
+* PROTOCOLS dict order: introspection.
+* interfaces passed to `core.takeover(...)` by RaopStream.stream_file / AirPlayStream.play_url:
+  determined BEHAVIOURALLY — the real method is run with a recording `core.takeover` that
+  stops the call, so the result does not depend on how the method is split into helpers.
+  The AST of the method and of the same-class helpers it calls (two levels) is read as a
+  cross-check when its shape is recognised; a disagreement between the two is an error.
+"""
 import ast
+import asyncio
 import inspect
 import textwrap
+import types
 
 IFACES = ["Audio", "Metadata", "PushUpdater", "RemoteControl"]
 
 
-def takeover_args(func):
-    tree = ast.parse(textwrap.dedent(inspect.getsource(func)))
-    calls = [n for n in ast.walk(tree) if isinstance(n, ast.Call) and isinstance(n.func, ast.Attribute)
-             and n.func.attr == "takeover"]
-    assert len(calls) == 1, f"expected exactly one takeover call in {func.__qualname__}"
+class _Stop(Exception):
+    """Raised by the recording takeover to end the probed call."""
+
+
+class _Perm:
+    """Permissive stand-in: any attribute, callable, awaitable, truthy."""
+
+    def __getattr__(self, name):
+        return _Perm()
+
+    def __call__(self, *args, **kwargs):
+        return _Perm()
+
+    def __await__(self):
+        if False:
+            yield None
+        return _Perm()
+
+
+def _run(coro):
+    loop = asyncio.new_event_loop()
+    try:
+        return loop.run_until_complete(coro)
+    finally:
+        loop.close()
+
+
+def probe_takeover(make_call):
+    """Run the real call with a recording core.takeover; returns interface names of the
+    first takeover."""
+    recorded = []
+
+    def takeover(*interfaces):
+        recorded.append([getattr(i, "__name__", repr(i)) for i in interfaces])
+        raise _Stop()
+
+    try:
+        _run(make_call(takeover))
+    except _Stop:
+        pass
+    except Exception as ex:  # the call must at least reach its takeover
+        if not recorded:
+            raise AssertionError(f"probe did not reach core.takeover: {type(ex).__name__}: {ex}")
+    assert recorded, "probe: the call never called core.takeover"
+    return recorded[0]
+
+
+def probe_raop():
+    from pyatv.protocols.raop import RaopStream
+
+    def make(takeover):
+        core = types.SimpleNamespace(takeover=takeover, service=_Perm(), config=_Perm(), settings=_Perm())
+        stream = RaopStream(core, _Perm(), _Perm(), _Perm())
+        return stream.stream_file("http://example.invalid/a.mp3")
+
+    return probe_takeover(make)
+
+
+def probe_airplay():
+    from pyatv import conf
+    from pyatv.const import Protocol
+    from pyatv.protocols.airplay import AirPlayStream
+    from pyatv.settings import Settings
+
+    def make(takeover):
+        config = conf.AppleTV("127.0.0.1", "verif")
+        service = conf.ManualService("airplayid", Protocol.AirPlay, 7000, {})
+        config.add_service(service)
+        core = types.SimpleNamespace(takeover=takeover, service=service, config=config, settings=Settings(),
+                                     loop=None, device_listener=_Perm(), session_manager=_Perm(),
+                                     state_dispatcher=_Perm())
+        stream = AirPlayStream(core)
+        return stream.play_url("http://example.invalid/a.mp4")
+
+    return probe_airplay_call(make)
+
+
+def probe_airplay_call(make):
+    return probe_takeover(make)
+
+
+def ast_takeover_args(cls, method, depth=2):
+    """Names passed to `.takeover(...)` in `cls.method` or in same-class helpers it calls
+    (`self.<helper>(...)`, up to `depth` levels).  None when the shape is not recognised
+    (no or several takeover calls, non-name arguments, source unavailable)."""
+    seen, calls = set(), []
+
+    def visit(name, level):
+        if name in seen or level > depth:
+            return
+        seen.add(name)
+        func = getattr(cls, name, None)
+        if func is None:
+            return
+        try:
+            tree = ast.parse(textwrap.dedent(inspect.getsource(func)))
+        except (OSError, TypeError, SyntaxError):
+            return
+        for node in ast.walk(tree):
+            if isinstance(node, ast.Call) and isinstance(node.func, ast.Attribute):
+                if node.func.attr == "takeover":
+                    calls.append(node)
+                elif isinstance(node.func.value, ast.Name) and node.func.value.id == "self":
+                    visit(node.func.attr, level + 1)
+
+    visit(method, 0)
+    if len(calls) != 1:
+        return None
     names = []
     for a in calls[0].args:
-        assert isinstance(a, ast.Name), "takeover argument is not a plain interface name"
+        if not isinstance(a, ast.Name):
+            return None
         names.append(a.id)
     return names
 
@@ -26,8 +139,17 @@ def generate():
     from pyatv.protocols.raop import RaopStream
 
     protos = [p.name for p in PROTOCOLS.keys()]
-    raop = takeover_args(RaopStream.stream_file)
-    airplay = takeover_args(AirPlayStream.play_url)
+    raop = probe_raop()
+    airplay = probe_airplay()
+    how = {}
+    for label, cls, method, probed in (("raop", RaopStream, "stream_file", raop),
+                                       ("airplay", AirPlayStream, "play_url", airplay)):
+        static = ast_takeover_args(cls, method)
+        if static is None:
+            how[label] = "probed (AST shape not recognised)"
+        else:
+            assert static == probed, f"{label}: AST says {static}, the running code takes over {probed}"
+            how[label] = "probed, confirmed by the AST"
     for n in raop + airplay:
         assert n in IFACES, f"unknown interface {n} in takeover call"
     lst = lambda xs: "[" + ", ".join(xs) + "]"
@@ -37,9 +159,9 @@ def generate():
         f"def protocols : List String := {lst(['\"%s\"' % p for p in protos])}\n\n"
         "/-- interfaces that take part in takeovers (index = `Res.takeover i`) -/\n"
         f"def ifaces : List String := {lst(['\"%s\"' % p for p in IFACES])}\n\n"
-        "/-- RaopStream.stream_file: self.core.takeover(...) arguments -/\n"
+        f"/-- RaopStream.stream_file: arguments of its core.takeover(...) call — {how['raop']} -/\n"
         f"def raopTakeoverIdx : List Nat := {lst([str(IFACES.index(n)) for n in raop])}\n\n"
-        "/-- AirPlayStream.play_url: self.core.takeover(...) arguments -/\n"
+        f"/-- AirPlayStream.play_url: arguments of its core.takeover(...) call — {how['airplay']} -/\n"
         f"def airplayTakeoverIdx : List Nat := {lst([str(IFACES.index(n)) for n in airplay])}\n\n"
         "end PyatvModel.Gen.C18\n"
     )
